@@ -75,6 +75,49 @@ def _digest(extra):
     return h.hexdigest()[:32]
 
 
+def _tree_digest():
+    """digest of everything the build of the crate can read: every file of the tree except target/ and .git/"""
+    h = hashlib.sha256()
+    for dp, dn, fn in os.walk(REPO):
+        dn[:] = sorted(d for d in dn if not (dp == REPO and d in ("target", ".git")))
+        for f in sorted(fn):
+            p = os.path.join(dp, f)
+            if f.endswith(".qwt256") or not os.path.isfile(p):
+                continue
+            h.update(os.path.relpath(p, REPO).encode() + b"\0")
+            try:
+                h.update(open(p, "rb").read())
+            except OSError:
+                pass
+    return h.hexdigest()[:24]
+
+
+_FIXED_MTIME = 946684800   # 2000-01-01
+
+
+def _stage_repo():
+    """Copy of the tree at a path that is a function of its CONTENT, all files with one fixed old mtime.  cargo keys the
+    artifacts of a path dependency by its path and decides freshness by mtimes: built from /repo itself, a tree restored
+    with its old timestamps after another tree was built would be taken as up to date and the program would run the
+    previous tree's code.  A content-addressed path cannot be stale, and the fixed mtime means an unchanged tree is not
+    rebuilt.  Call under the witness lock; remove with _unstage_repo() before releasing it."""
+    dst = os.path.join("/dev/shm", "qwt-wsrc-" + _tree_digest())
+    if os.path.exists(dst):
+        shutil.rmtree(dst, ignore_errors=True)
+    shutil.copytree(REPO, dst, ignore=shutil.ignore_patterns("target", ".git", "*.qwt256"), symlinks=True)
+    for dp, dn, fn in os.walk(dst):
+        for f in fn + dn:
+            try:
+                os.utime(os.path.join(dp, f), (_FIXED_MTIME, _FIXED_MTIME), follow_symlinks=False)
+            except OSError:
+                pass
+    return dst
+
+
+def _unstage_repo(dst):
+    shutil.rmtree(dst, ignore_errors=True)
+
+
 _BUILD = {}
 _FEAT = {}   # "v": extra text in the dependency line (", default-features = false" for the build without the prefetch feature)
 
@@ -85,9 +128,9 @@ def build_program():
     if bkey in _BUILD:
         return _BUILD[bkey]
     wd = tempfile.mkdtemp(prefix="witness-", dir="/dev/shm")
+    staged = None
     try:
         shutil.copytree(os.path.join(VERIF, "replay", "src"), os.path.join(wd, "src"))
-        open(os.path.join(wd, "Cargo.toml"), "w").write(open(os.path.join(VERIF, "replay", "Cargo.toml.in")).read().replace("@REPO@", REPO).replace("@QWT_FEATURES@", _FEAT.get("v", "")).replace("@CHECKS@", "false" if _FEAT.get("plain") else "true"))
         lock = os.path.join(VERIF, "replay", "Cargo.lock")
         if os.path.exists(lock):
             shutil.copy(lock, os.path.join(wd, "Cargo.lock"))
@@ -99,6 +142,8 @@ def build_program():
         # that a concurrent check of another tree cannot swap the binary in between
         with open(os.path.join(VERIF, ".cache", "witness-target.lock"), "w") as lk:
             fcntl.flock(lk, fcntl.LOCK_EX)
+            staged = _stage_repo()
+            open(os.path.join(wd, "Cargo.toml"), "w").write(open(os.path.join(VERIF, "replay", "Cargo.toml.in")).read().replace("@REPO@", staged).replace("@QWT_FEATURES@", _FEAT.get("v", "")).replace("@CHECKS@", "false" if _FEAT.get("plain") else "true"))
             b = subprocess.run(["cargo", "build", "--release", "--offline", "--bin", "qwt-witness"], cwd=wd, env=env, capture_output=True, text=True, timeout=1800)
             if b.returncode != 0:
                 _BUILD[bkey] = (None, b.stderr[-1500:])
@@ -108,8 +153,12 @@ def build_program():
                 import atexit
                 atexit.register(lambda p=exe: os.path.exists(p) and os.remove(p))   # private to this process: removed when it ends
                 _BUILD[bkey] = (exe, None)
+            _unstage_repo(staged)
+            staged = None
     finally:
         shutil.rmtree(wd, ignore_errors=True)
+        if staged:
+            _unstage_repo(staged)
     return _BUILD[bkey]
 
 
@@ -154,7 +203,6 @@ def check_send_sync():
     wd = tempfile.mkdtemp(prefix="sendsync-", dir="/dev/shm")
     try:
         shutil.copytree(os.path.join(VERIF, "replay", "src"), os.path.join(wd, "src"))
-        open(os.path.join(wd, "Cargo.toml"), "w").write(open(os.path.join(VERIF, "replay", "Cargo.toml.in")).read().replace("@REPO@", REPO).replace("@QWT_FEATURES@", _FEAT.get("v", "")).replace("@CHECKS@", "false" if _FEAT.get("plain") else "true"))
         lock = os.path.join(VERIF, "replay", "Cargo.lock")
         if os.path.exists(lock):
             shutil.copy(lock, os.path.join(wd, "Cargo.lock"))
@@ -164,7 +212,12 @@ def check_send_sync():
         import fcntl
         with open(os.path.join(VERIF, ".cache", "witness-target.lock"), "w") as lk:
             fcntl.flock(lk, fcntl.LOCK_EX)
-            b = subprocess.run(["cargo", "check", "--release", "--offline", "--bin", "sendsync"], cwd=wd, env=env, capture_output=True, text=True, timeout=1800)
+            staged = _stage_repo()     # content-addressed copy: see _stage_repo
+            try:
+                open(os.path.join(wd, "Cargo.toml"), "w").write(open(os.path.join(VERIF, "replay", "Cargo.toml.in")).read().replace("@REPO@", staged).replace("@QWT_FEATURES@", _FEAT.get("v", "")).replace("@CHECKS@", "false" if _FEAT.get("plain") else "true"))
+                b = subprocess.run(["cargo", "check", "--release", "--offline", "--bin", "sendsync"], cwd=wd, env=env, capture_output=True, text=True, timeout=1800)
+            finally:
+                _unstage_repo(staged)
         if b.returncode == 0:
             return True, True, ""
         err = b.stderr
